@@ -16,10 +16,14 @@ H.append({"name":"H_zip","tiers":Q,"preemptions":-1,"novalidate":True,"bounds":"
   "param_sets":[{"shape":s,"workers":w,"policy":0,"copybuf":2,"numcpu":3,"race":1} for s in (0,1,2) for w in (2,3)]})
 H.append({"name":"H_resume","tiers":Q,"preemptions":-1,"novalidate":True,"bounds":"race query on the resumable extraction (resume file bookkeeping), 2 workers",
   "param_sets":[{"shape":1,"workers":2,"k":2,"policy":0,"copybuf":2,"numcpu":3,"race":1}]})
-H.append({"name":"H_zip","tiers":T,"preemptions":2,"bounds":"<=2 preemptions, 1..4 workers","max_seconds":1700,
-  "param_sets":[{"shape":s,"workers":w,"policy":p,"copybuf":2,"numcpu":3} for s in (0,1,2) for w in (1,2,3,4) for p in (0,1)]})
-H.append({"name":"H_resume","tiers":T,"preemptions":2,"novalidate":True,"bounds":"<=2 preemptions, 1..3 workers, every interruption point","max_seconds":1700,
-  "param_sets":[{"shape":s,"workers":w,"k":k,"policy":p,"copybuf":2,"numcpu":3} for s in (0,1) for w in (1,2,3) for k in range(1,6) for p in (0,1)]})
+H.append({"name":"H_zip","tiers":T,"preemptions":2,"bounds":"<=2 preemptions, 1..3 workers","max_seconds":900,
+  "param_sets":[{"shape":s,"workers":w,"policy":p,"copybuf":2,"numcpu":3} for s in (0,1,2,3) for w in (1,2,3) for p in (0,1)]})
+H.append({"name":"H_zip","tiers":T,"preemptions":1,"bounds":"<=1 preemption, 4 workers, three policies","max_seconds":900,
+  "param_sets":[{"shape":s,"workers":4,"policy":p,"copybuf":2,"numcpu":3} for s in (0,1,3) for p in (0,1,2)]})
+H.append({"name":"H_resume","tiers":T,"preemptions":1,"novalidate":True,"bounds":"<=1 preemption, 1..3 workers, every interruption point 1..5, three policies, 3 tree shapes","max_seconds":900,
+  "param_sets":[{"shape":s,"workers":w,"k":k,"policy":p,"copybuf":2,"numcpu":3} for s in (0,1,3) for w in (1,2,3) for k in range(1,6) for p in (0,1,2)]})
+H.append({"name":"H_resume","tiers":T,"preemptions":-1,"novalidate":True,"bounds":"crash right before any of the first 200 visible operations, 4 tree shapes, 1..3 workers, three policies","max_seconds":900,
+  "param_sets":[{"shape":s,"workers":w,"instants":200,"policy":p,"copybuf":2,"numcpu":3} for s in (0,1,2,3) for w in (1,2,3) for p in (0,1,2)]})
 json.dump({"property":"C19","package":"c19","models":["modelzip"],"scale":[],"harnesses":H,
  "stubs":["os -> memfs (copy buffer 2 bytes)","arkive/zip -> lossless container of (header, bytes) entries","runtime.NumCPU -> 3","cooperative preemption-bounded scheduler with several default policies"],
  "outside":["tar (archive/tar header codec + os/user are not encodable within reach)","real zip/deflate bytes","containerarchiver","races that need a different channel pairing than the observed one (the race query keeps the pairing of the explored trace)"]},open("config.json","w"),indent=1)
